@@ -290,7 +290,14 @@ Proof.
     destruct (select_ents (ents nd) (dedup_keys ks [])) as [e|] eqn:S; [|same_state H]. inversion H. subst. split.
     + eapply set_ents_locked_kept; [exact E|eapply td_flag_false; eassumption].
     + intros x Lx. unfold set_node_ents in Lx. rewrite E in Lx. exact Lx.
-  - exfalso. apply NU. cbn. reflexivity.
+  - (* exclude(inplace=True): unguarded while D8 is there; with the fix it is one more guarded single-node change *)
+    destruct (is_td s n) eqn:T; cbn [negb] in H; [|same_state H].
+    assert (Fx : fixed_D8 = true) by (destruct fixed_D8 eqn:E; [reflexivity|exfalso; apply NU; cbn; exact E]).
+    rewrite Fx in H. cbn [andb] in H.
+    destruct (td_flag s n) eqn:TF; [same_state H|].
+    destruct (is_td_spec _ _ T) as (nd & E & K & L). rewrite E in H. inversion H. subst. split.
+    + eapply set_ents_locked_kept; [exact E|eapply td_flag_false; eassumption].
+    + intros x Lx. unfold set_node_ents in Lx. rewrite E in Lx. exact Lx.
   - destruct (is_lazy s l && exists_live s m) eqn:T; cbn [negb] in H; [|same_state H].
     apply andb_prop in T. destruct T as [T X].
     destruct (is_locked fuel (hp s) l) as [[|]|] eqn:IL; [same_state H| |discriminate].
